@@ -12,16 +12,22 @@ import (
 	"os"
 	"sort"
 	"strings"
+	"sync/atomic"
 )
 
-var verifHook func(event string, arg uint64)
+var verifHook atomic.Value // of func(event string, arg uint64)
 
 // VerifSetHook installs a callback invoked immediately before each write/sync
 // on the log file and before each page/header write on the data file.
-func VerifSetHook(f func(event string, arg uint64)) { verifHook = f }
+func VerifSetHook(f func(event string, arg uint64)) {
+	if f == nil {
+		f = func(string, uint64) {}
+	}
+	verifHook.Store(f)
+}
 
 func verifPoint(event string, arg uint64) {
-	if h := verifHook; h != nil {
+	if h, ok := verifHook.Load().(func(string, uint64)); ok {
 		h(event, arg)
 	}
 }
